@@ -41,7 +41,17 @@ def run(ctx):
     ctx.rule(nameflow)
     ctx.rule(reductions)
     ctx.rule(wrappers)
+    ctx.rule(port_reads_plain_fields)
     ctx.rule(no_ambient_settings)
+
+
+def port_reads_plain_fields(ctx, R="R-C14-nameflow"):
+    """from_stft_frame_computer copies the NumPy computer's private fields: the start bins and truncated responses it pairs up are
+    meaningful to the torch routine only as the bank returned them (bin offsets into the full spectrum).  A NumPy-side change that
+    stores them in another convention (relative to the half spectrum, with a separate flag) can keep the NumPy result intact and
+    silently break the port: what the constructor stores is a premise of this property and is re-established here."""
+    from . import c02
+    c02.filters_stored_whole(ctx, R)
 
 
 def no_ambient_settings(ctx, R="R-C14-nameflow"):
